@@ -24,7 +24,9 @@ RULE = ('Linen: every module tree with <= 3 children per node from explicit name
         'params, depth <= 2; x every permutation of sibling creation order x extra unrelated '
         'sibling / stream / variable x both values of flax_fix_rng_separator x stream seeds; a stream '
         'seeded at the top but not lifted into {remat, checkpoint, jit}(rngs=params | [params] | '
-        'DenyList(dropout)) x 5 bodies x outer draws: same keys as the params twin; '
+        'DenyList(dropout)) x 5 bodies x outer draws: same keys as the params twin; 2-3 named '
+        'siblings passed as fields into every pair of {plain, jit, remat, checkpoint} callers (and '
+        'named child scopes under core lift.jit / remat): pairwise different keys; '
         'NNX: BFS over histories (depth 4 quick / 6 thorough) on Rngs(seed, s1=, s2=) with actions '
         '{draw default/s1/missing, split_rngs (+ vmapped draws) + restore, context manager, only= '
         'filter, reseed, split/merge}; states = canonical per-stream (key, count), transitions = '
@@ -131,6 +133,7 @@ def units(tier, seed):
     us.append(dict(kind='linen', lo=i, hi=min(len(progs), i + step)))
   us.append(dict(kind='linen-fallback'))
   us.append(dict(kind='linen-filtered'))
+  us.append(dict(kind='linen-passed'))
   # determinism and non-reuse under lifted jit / remat (clause shared with C05, family R)
   jb = [[['rng', 'dropout']], [['child', 'B', [['rng', 'dropout']], None, 1]],
         [['param', 'a', 's'], ['rng', 'dropout']]]
@@ -150,6 +153,8 @@ def run_unit(unit):
     _fallback(res)
   elif unit['kind'] == 'linen-filtered':
     _filtered(res)
+  elif unit['kind'] == 'linen-passed':
+    _passed(res)
   elif unit['kind'] == 'linen-jit':
     from mc.checks import c05
     c05._fam_R(res, unit)
@@ -289,6 +294,100 @@ def _fallback(res):
         res['nontrivial'].append(core.h(key))
         res['states'] += 1
   res['samples'].append(dict(kind='fallback'))
+
+
+def _passed(res):
+  """Sibling modules with different names that are *passed into* other modules (as dataclass
+  fields) still draw different keys, whether the receiving module is plain or wrapped in a lifted
+  transform; functional core: two child scopes with different names under lift.jit / lift.remat."""
+  import jax
+  import jax.numpy as jnp
+  import flax.linen as nn
+  from flax.core import lift, apply as core_apply
+
+  class Leaf(nn.Module):
+    draws: int = 1
+
+    @nn.compact
+    def __call__(self, x):
+      ks = [jax.random.key_data(self.make_rng('dropout')) for _ in range(self.draws)]
+      return jnp.stack(ks)
+
+  class Caller(nn.Module):
+    inner: nn.Module = None
+
+    @nn.compact
+    def __call__(self, x):
+      return self.inner(x)
+
+  wrappers = {'plain': Caller, 'jit': nn.jit(Caller), 'remat': nn.remat(Caller),
+              'checkpoint': nn.checkpoint(Caller)}
+  x = jnp.ones(())
+  names_sets = [('p', 'q'), ('a', 'ab', 'b'), ('q', 'p')]
+  for w1, w2 in itertools.product(wrappers, repeat=2):
+    for names in names_sets:
+      for draws in (1, 2):
+        for fix in (False, True):
+          J = [wrappers[w1], wrappers[w2]]
+
+          class Top(nn.Module):
+            @nn.compact
+            def __call__(self, x):
+              leaves = [Leaf(draws=draws, name=n) for n in names]
+              return [J[i % 2](leaf, name=f'c{i}')(x) for i, leaf in enumerate(leaves)]
+
+          key = f'{w1}|{w2}|{names}|{draws}|{fix}'
+          res['evals'] += 2
+          res['transitions'] += 1
+          import flax
+          old = flax.config.flax_fix_rng_separator
+          flax.config.update('flax_fix_rng_separator', fix)
+          try:
+            outs = Top().apply({}, x, rngs={'dropout': jax.random.key(5)})
+            outs2 = Top().apply({}, x, rngs={'dropout': jax.random.key(5)})
+          except Exception as e:  # noqa
+            core.violation(res, f'passed-raises|{key}', f'{type(e).__name__}: {e}'[:300],
+                           dict(wrappers=[w1, w2], names=list(names)))
+            continue
+          finally:
+            flax.config.update('flax_fix_rng_separator', old)
+          ks = [tuple(np.asarray(k).ravel().tolist()) for o in outs for k in np.asarray(o)]
+          ks2 = [tuple(np.asarray(k).ravel().tolist()) for o in outs2 for k in np.asarray(o)]
+          if ks != ks2:
+            core.violation(res, f'passed-nondet|{key}', 'same program, same seeds, different keys',
+                           dict(wrappers=[w1, w2], names=list(names)))
+          if len(set(ks)) != len(ks):
+            core.violation(res, f'passed-reuse|{key}',
+                           'two draws in differently named sibling modules (passed into other '
+                           'modules as fields) returned the same key',
+                           dict(wrappers=[w1, w2], names=list(names), draws=draws), observed=ks)
+          core.outcome(res, f'passed:{w1}:{w2}')
+          res['nontrivial'].append(core.h(key))
+          res['states'] += 1
+
+  # functional core: child scopes with different names under a lifted transform
+  def draw(scope, x):
+    return jax.random.key_data(scope.make_rng('dropout'))
+
+  # (core lift.jit takes a hashable trace key as its first argument after the scope and hands
+  # it on to the function)
+  core_jit = lambda f: (lambda scope, x: lift.jit(lambda sc, hk, x_: f(sc, x_))(scope, 'trace-key', x))
+  for tname, tr in (('plain', lambda f: f), ('jit', core_jit), ('remat', lift.remat)):
+    def top(scope, x):
+      return [scope.child(tr(draw), n)(x) for n in ('p', 'q', 'pq')]
+    res['evals'] += 1
+    try:
+      outs = core_apply(top)({}, x, rngs={'dropout': jax.random.key(5)})
+    except Exception as e:  # noqa
+      core.violation(res, f'passed-core-raises|{tname}', f'{type(e).__name__}: {e}'[:300], dict(t=tname))
+      continue
+    ks = [tuple(np.asarray(k).ravel().tolist()) for k in outs]
+    if len(set(ks)) != len(ks):
+      core.violation(res, f'passed-core-reuse|{tname}',
+                     'child scopes with different names drew the same key under a lifted transform',
+                     dict(transform=tname), observed=ks)
+    core.outcome(res, f'passed-core:{tname}')
+  res['samples'].append(dict(kind='passed'))
 
 
 def _filtered(res):
